@@ -53,7 +53,13 @@ pub fn choices() -> BoxedStrategy<Vec<u8>> {
 pub fn lang_strategy() -> BoxedStrategy<String> {
     (0usize..7).prop_map(|i| LANGS[i].to_string()).boxed()
 }
-pub const THRESHOLDS: [f64; 14] = [
+pub const THRESHOLDS: [f64; 20] = [
+    2.5,
+    9.5,
+    9.999,
+    10.000001,
+    -0.0,
+    1000.0,
     0.0,
     10.0,
     3.0,
